@@ -8,7 +8,8 @@ Symbolic dimensions
 * service interleaving: `who_k` (k < S) picks which side's `serviceAll()` runs at step k;
   afterwards both sides are serviced alternately (fair drain) for a fixed number of rounds;
 * transfer limits: `slots` calls of send()/recv() (counted over both ends) are limited to
-  `lim*stride` bytes (0 = EAGAIN); the call index `at_k` and the limit `lim_k` are symbolic
+  `lim*stride` bytes (0 = EAGAIN), or to all but the last `lim*stride` bytes (`tail` = 1: e.g.
+  the head of the 2nd request reaches the server, part of its body only after a server pass); the call index `at_k` and the limit `lim_k` are symbolic
   integers: the solver forks on `at_k == callno` for the calls that really happen and on
   `limit < available`; the byte count is realised where the double slices the data.
 * response shapes per request: selectors fixed as obligation parameters (one shard per
@@ -50,8 +51,8 @@ ASSUMPTIONS = [
     "all transfer calls except the `slots` symbolic ones are unlimited; after the S scheduled steps both sides are serviced "
     "alternately for 8N+10+2*slots rounds (fair drain) before the oracle is evaluated",
     "store stamp is never advanced: connection timers (Valet 5 s, Client 1 s) never expire",
-    "all N requests are queued on the Patron before the first service call (Patron sends them one at a time); request k is a POST "
-    "with a 9-byte body for even k and a GET for odd k; each carries an application tag rid=k (not sent) that must come back with its response",
+    "all N requests are queued on the Patron before the first service call (Patron sends them one at a time); requests 0 and 1 are POSTs "
+    "with a 9-byte body, request 2 is a GET; each carries an application tag rid=k (not sent) that must come back with its response",
     "WSGI application double: response shape chosen by PATH_INFO; bodies echo the request index, method and request body",
     "a response is 'delimited' iff it has Content-Length or Transfer-Encoding: chunked (or is 204/304); close-delimited "
     "responses are counted as not delimited because they end the persistent connection",
@@ -124,8 +125,9 @@ def expectation(i, shape, method, reqbody):
 
 
 def request_of(k):
-    # POST (with a body that must be consumed before the next request) first, GET second, POST third
-    if k % 2 == 1:
+    # POST, POST, GET: the first two carry a body that must be consumed before the next request, and the SECOND
+    # request (the first one parsed by a reused request parser) can reach the server head first, body later
+    if k % 3 == 2:
         return "GET", b""
     return "POST", b"payload-%d" % k
 
@@ -246,10 +248,14 @@ def _exchange(sym, shapes, whos, slots, policy):
     return True
 
 
-def h_pipe(sym, shapes, maxcut, maxgap=3, free=None):
-    """raw pipelined client: all N requests back to back, split at a symbolic cut"""
+def h_pipe(sym, shapes, maxcut, maxgap=3, free=None, maxend=0):
+    """raw pipelined client: all N requests back to back, split at a symbolic cut.  cut <= maxcut: offset from the
+    start of the byte string; cut = maxcut + e (1 <= e <= maxend): offset e from its END (inside the body / the end
+    of the head of the LAST request)"""
     shapes = pick_shapes(sym, shapes, free)
-    cut = sym.realize(sym.int("cut", 0, maxcut))
+    cut = sym.realize(sym.int("cut", 0, maxcut + maxend))
+    if cut > maxcut:
+        cut = -(cut - maxcut)
     gap = sym.realize(sym.int("gap", 0, maxgap))
     return run_concrete(sym, _pipe, shapes, cut, gap)
 
@@ -267,6 +273,9 @@ def _pipe(sym, shapes, cut, gap):
     wire = bytearray()
     for k, (method, body) in enumerate(reqs):
         wire.extend(clienting.Requester(hostname="127.0.0.1", port=8080, method=method, path="/r%d" % k, body=body).build())
+    if cut < 0:
+        cut = max(0, len(wire) + cut)
+        sym.cover("cut-in-last-request")
     if cut > len(wire):
         cut = len(wire)
     cend.send(bytes(wire[:cut]))
@@ -315,7 +324,7 @@ def obligations(tier):
     if quick:
         plans = [("sched", single(tuples(SHAPES_Q, 2)), dict(steps=6, slots=0, maxcall=0, lmax=0, stride=1)),
                  ("xfer", single(tuples(SHAPES_Q, 2)), dict(steps=0, slots=1, maxcall=40, lmax=3, stride=1))]
-        pipes = [("pipe", single(tuples(SHAPES_Q, 2)), 40, 3)]
+        pipes = [("pipe", single(tuples(SHAPES_Q, 2)), 20, 3, 20)]
     else:
         plans = [("sched", grouped(SHAPES_T, 2, 1), dict(steps=8, slots=0, maxcall=0, lmax=0, stride=1)),
                  ("sched3", grouped(SHAPES_Q, 3, 2), dict(steps=7, slots=0, maxcall=0, lmax=0, stride=1)),
@@ -323,7 +332,7 @@ def obligations(tier):
                  ("xfer3", grouped(SHAPES_Q, 3, 2), dict(steps=0, slots=1, maxcall=80, lmax=2, stride=17)),
                  ("xfer2slots", single(four), dict(steps=0, slots=2, maxcall=60, lmax=2, stride=17)),
                  ("both", grouped(SHAPES_Q, 2, 1), dict(steps=3, slots=1, maxcall=60, lmax=2, stride=1))]
-        pipes = [("pipe", grouped(SHAPES_T, 2, 1), 120, 1), ("pipe3", grouped(SHAPES_Q, 3, 2), 100, 1)]
+        pipes = [("pipe", grouped(SHAPES_T, 2, 1), 110, 2, 40), ("pipe3", grouped(SHAPES_Q, 3, 2), 80, 2, 30)]
 
     def label(t, free):
         return "+".join(t) + ("+*" * free[0] if free else "")
@@ -349,12 +358,13 @@ def obligations(tier):
                           bounds=dict(N=n, shapes=list(t), free_shapes=list(free[1]) if free else [], schedule_steps=kw["steps"],
                                       limited_calls=kw["slots"], call_index=[0, kw["maxcall"]],
                                       limit_bytes=[0, kw["lmax"] * kw["stride"]], limit_stride=kw["stride"])))
-    for fam, groups, maxcut, maxgap in pipes:
+    for fam, groups, maxcut, maxgap, maxend in pipes:
         for t, free in groups:
             n = len(t) + (free[0] if free else 0)
-            covers = ["n-responses", "split-pipeline"] if some_clean(t, free, True) else []
-            out.append(Ob("%s/%s" % (fam, label(t, free)), h_pipe, dict(shapes=list(t), free=free, maxcut=maxcut, maxgap=maxgap),
+            covers = ["n-responses", "split-pipeline", "cut-in-last-request"] if some_clean(t, free, True) else []
+            out.append(Ob("%s/%s" % (fam, label(t, free)), h_pipe,
+                          dict(shapes=list(t), free=free, maxcut=maxcut, maxgap=maxgap, maxend=maxend),
                           budget=budget, covers=covers,
-                          bounds=dict(N=n, shapes=list(t), free_shapes=list(free[1]) if free else [], cut=[0, maxcut],
-                                      gap_rounds=[0, maxgap])))
+                          bounds=dict(N=n, shapes=list(t), free_shapes=list(free[1]) if free else [], cut_from_start=[0, maxcut],
+                                      cut_from_end=[1, maxend], gap_rounds=[0, maxgap])))
     return out
